@@ -5,7 +5,8 @@ The family is a matrix rather than a random walk, so the pipeline differs from V
          Methods x signer-set descriptors x committee sizes ({1,3,4,7} quick, 1..7 thorough) and prints the cells with the expected kind of
          outcome (`SCEN` lines) - the printed table IS the test matrix
   S3     harness/access executes the cells of one committee size per process on one chain with all eleven contracts
-         (quick: n = 3 completely + seeded samples of the methods on n = 1 (every 2nd) and n = 7 (every 4th);
+         (quick: n = 3 and n = 4 completely (an odd and an even size: threshold formulas differ in parity) + seeded samples of the
+         methods on n = 1 (every 2nd), n = 6 (every 3rd) and n = 7 (every 4th);
          thorough: n = 1..7 completely)
   S4     spec/AccessTrace.tla judges every recorded cell (C03_Inert / C03_Succeeds / C03_SafeInert / C03_Verify) and
          compares it with the Spec action (drift)
@@ -34,7 +35,7 @@ RULE = ("one evaluation = one cell (method, signer set, committee size) executed
         "the TLA+ monitor; distinct_nontrivial counts distinct (contract, method, arity, variant, normalised signer set, n, outcome) tuples among "
         "mutating-method cells and verify cells")
 TIERS = {
-    "quick": dict(cfg="Access_quick.cfg", runs=[(3, 0), (1, 2), (7, 4)], mc_timeout=600, drive_timeout=1500),
+    "quick": dict(cfg="Access_quick.cfg", runs=[(3, 0), (4, 0), (1, 2), (6, 3), (7, 4)], mc_timeout=600, drive_timeout=1500),
     "thorough": dict(cfg="Access_thorough.cfg", runs=[(n, 0) for n in (1, 2, 3, 4, 5, 6, 7)], mc_timeout=900, drive_timeout=3000),
 }
 
